@@ -38,8 +38,13 @@ func specLinesText(lines []string, i int) string {
 // rcRecv: the roots the goroutine under verification has received from the generator stage; gcSent: the grown roots it has sent on
 //@ ghost var rcRecv []*Node
 //@ ghost var gcSent []*Node
+// lnConsumed: the generator worker has scanned its current block to the end (set after sc.Err(), cleared when a new
+// block's scanner is made); rcSentOK: every root sent on the root channel so far was sent for a block scanned to its end
+//@ ghost var lnConsumed bool
+//@ ghost var rcSentOK bool
 //@ channel rootChan(n)
 //@   requires nonnil [C12]: n != nil && n.hierarchy == 1
+//@   records rcSentOK := rcSentOK && lnConsumed
 //@   receives rcRecv := ok ? rcRecv ++ seqof(n) : rcRecv
 
 // gcRecv: the grown roots the goroutine under verification has received (appended by every successful receive)
@@ -68,13 +73,13 @@ func specLinesText(lines []string, i int) string {
 //@   carries errc: errChan
 //@   carries result0: blockChan
 //@   carries result1: errChan
-//@   modifies bufio.Scanner.pos, bufio.Scanner.failed, errSent, splSent, ctxDoneSeen, gcRecv, rcRecv, gcSent, splSharp, splCutOK
+//@   modifies bufio.Scanner.pos, bufio.Scanner.failed, errSent, splSent, ctxDoneSeen, gcRecv, rcRecv, rcSentOK, lnConsumed, gcSent, splSharp, splCutOK
 // the splitter goroutine, for runs in which it saw no cancellation: a failed scan is reported on the error channel (C14);
 // otherwise the blocks sent, concatenated, are the input lines (each with its newline): nothing is dropped or reordered
 // before the generator stage (C02, C15)
 //@ closure gtree.split#1
 //@   requires nn: ctx != nil && sc != nil && sc.pos == 0 && !sc.failed
-//@   modifies bufio.Scanner.pos, bufio.Scanner.failed, errSent, splSent, ctxDoneSeen, gcRecv, rcRecv, gcSent, splSharp, splCutOK
+//@   modifies bufio.Scanner.pos, bufio.Scanner.failed, errSent, splSent, ctxDoneSeen, gcRecv, rcRecv, rcSentOK, lnConsumed, gcSent, splSharp, splCutOK
 //@   after isRootBlockBeginning: splCutOK := splCutOK && (result == (len(arg0) > 0 && (arg0[0] == '#' || (!splSharp && (arg0[0] == '-' || arg0[0] == '*' || arg0[0] == '+')))))
 //@   after isRootBlockBeginning: splSharp := splSharp || (len(arg0) > 0 && arg0[0] == '#')
 //@   ensures cuts [C02,C15]: old(splCutOK) && !old(splSharp) ==> splCutOK
@@ -103,10 +108,10 @@ func specLinesText(lines []string, i int) string {
 //@   carries errc: errChan
 //@   carries result0: rootChan
 //@   carries result1: errChan
-//@   modifies Node.children, Node.parent, list.List.view, list.Element.backOf, counter.n, bufio.Scanner.pos, bufio.Scanner.failed, markdown.Parser.isSharpRoot, markdown.Parser.spaces, markdown.Parser.sep, errSent, ctxDoneSeen, gcRecv, rcRecv, gcSent, lnNodes, lnRootCount, lnRejected
+//@   modifies Node.children, Node.parent, list.List.view, list.Element.backOf, counter.n, bufio.Scanner.pos, bufio.Scanner.failed, markdown.Parser.isSharpRoot, markdown.Parser.spaces, markdown.Parser.sep, errSent, ctxDoneSeen, gcRecv, rcRecv, rcSentOK, lnConsumed, gcSent, lnNodes, lnRootCount, lnRejected
 //@ closure gtree.rootGeneratorPipeline.generate#1
 //@   requires nn: rg != nil && rg.nodeGenerator != nil && rg.nodeGenerator.parser != nil && md.parserOK(rg.nodeGenerator.parser) && ctx != nil
-//@   modifies Node.children, Node.parent, list.List.view, list.Element.backOf, counter.n, bufio.Scanner.pos, bufio.Scanner.failed, markdown.Parser.isSharpRoot, markdown.Parser.spaces, markdown.Parser.sep, errSent, ctxDoneSeen, gcRecv, rcRecv, gcSent, lnNodes, lnRootCount, lnRejected
+//@   modifies Node.children, Node.parent, list.List.view, list.Element.backOf, counter.n, bufio.Scanner.pos, bufio.Scanner.failed, markdown.Parser.isSharpRoot, markdown.Parser.spaces, markdown.Parser.sep, errSent, ctxDoneSeen, gcRecv, rcRecv, rcSentOK, lnConsumed, gcSent, lnNodes, lnRootCount, lnRejected
 //@ loop gtree.rootGeneratorPipeline.generate#1#1
 //@   invariant parser: md.parserOK(rg.nodeGenerator.parser)
 //@ func gtree.rootGeneratorPipeline.worker
@@ -115,9 +120,12 @@ func specLinesText(lines []string, i int) string {
 //@   carries blocks: blockChan
 //@   carries rootc: rootChan
 //@   carries errc: errChan
-//@   modifies Node.children, Node.parent, list.List.view, list.Element.backOf, counter.n, bufio.Scanner.pos, bufio.Scanner.failed, markdown.Parser.isSharpRoot, markdown.Parser.spaces, markdown.Parser.sep, errSent, ctxDoneSeen, gcRecv, rcRecv, gcSent, lnNodes, lnRootCount, lnRejected
+//@   modifies Node.children, Node.parent, list.List.view, list.Element.backOf, counter.n, bufio.Scanner.pos, bufio.Scanner.failed, markdown.Parser.isSharpRoot, markdown.Parser.spaces, markdown.Parser.sep, errSent, ctxDoneSeen, gcRecv, rcRecv, rcSentOK, lnConsumed, gcSent, lnNodes, lnRootCount, lnRejected
 //@   after NewScanner: lnNodes := emptyseq(lnNodes)
 //@   after NewScanner: lnRootCount := 0
+//@   after NewScanner: lnConsumed := false
+//@   after Err: lnConsumed := result != nil || (sc.pos == len(sc.lines) && !sc.failed)
+//@   ensures consumed [C02]: old(rcSentOK) ==> rcSentOK
 //@   after generate: lnRejected := lnRejected || result1 != nil
 //@   after dfs: lnRejected := lnRejected || !result
 //@   after Err: lnRejected := lnRejected || result != nil
@@ -128,6 +136,7 @@ func specLinesText(lines []string, i int) string {
 //@   after dfs: lnNodes := result ? lnNodes ++ seqof(as(last(recv.nodes.view), Node)) : lnNodes
 //@ loop gtree.rootGeneratorPipeline.worker#1
 //@   invariant ok: md.parserOK(rg.nodeGenerator.parser)
+//@   invariant consumed [C02]: old(rcSentOK) ==> rcSentOK
 //@   invariant genuine [C02,C12,C15]: errSent == old(errSent) && lnRejected == old(lnRejected)
 //@ loop gtree.rootGeneratorPipeline.worker#2
 //@   invariant ok: md.parserOK(rg.nodeGenerator.parser) && sc != nil && 0 <= sc.pos && sc.pos <= len(sc.lines) && counter != nil
@@ -135,6 +144,7 @@ func specLinesText(lines []string, i int) string {
 //@   invariant stack [C12]: stackOK(nodes)
 //@   invariant one [C02]: lnRootCount >= 0 && (lnRootCount == 0 ==> len(nodes.nodes.view) == 0) && (lnRootCount <= 1 ==> chain(nodes))
 //@   invariant genuine [C02,C12,C15]: errSent == old(errSent) && lnRejected == old(lnRejected)
+//@   invariant consumed [C02]: old(rcSentOK) ==> rcSentOK
 //@   invariant count [C02]: len(lnNodes) == sc.pos
 //@   invariant lines [C02]: lnRootCount <= 1 ==> (forall j int :: {lnNodes[j]} 0 <= j && j < sc.pos ==> (md.allSpace(sc.lines[j]) ==> lnNodes[j] == nil) && (!md.allSpace(sc.lines[j]) ==> lineRepr(sc.lines[j], lnNodes[j])))
 
@@ -147,16 +157,16 @@ func specLinesText(lines []string, i int) string {
 //@   carries errc: errChan
 //@   carries result0: grownChan(dg.defaultGrowerSimple)
 //@   carries result1: errChan
-//@   modifies Node.brnch.value, Node.brnch.path, errSent, ctxDoneSeen, gcRecv, rcRecv, gcSent
+//@   modifies Node.brnch.value, Node.brnch.path, errSent, ctxDoneSeen, gcRecv, rcRecv, rcSentOK, lnConsumed, gcSent
 //@ closure gtree.defaultGrowerPipeline.grow#1
 //@   requires nn: dg != nil && dg.defaultGrowerSimple != nil && ctx != nil
-//@   modifies Node.brnch.value, Node.brnch.path, errSent, ctxDoneSeen, gcRecv, rcRecv, gcSent
+//@   modifies Node.brnch.value, Node.brnch.path, errSent, ctxDoneSeen, gcRecv, rcRecv, rcSentOK, lnConsumed, gcSent
 //@ func gtree.defaultGrowerPipeline.worker
 //@   requires nn: dg != nil && dg.defaultGrowerSimple != nil && ctx != nil && wg != nil
 //@   carries roots: rootChan
 //@   carries nodes: grownChan(dg.defaultGrowerSimple)
 //@   carries errc: errChan
-//@   modifies Node.brnch.value, Node.brnch.path, errSent, ctxDoneSeen, gcRecv, rcRecv, gcSent
+//@   modifies Node.brnch.value, Node.brnch.path, errSent, ctxDoneSeen, gcRecv, rcRecv, rcSentOK, lnConsumed, gcSent
 //@   ensures every [C01,C02]: ctxDoneSeen == old(ctxDoneSeen) && !errSent ==> drop(gcSent, len(old(gcSent))) == drop(rcRecv, len(old(rcRecv)))
 //@ loop gtree.defaultGrowerPipeline.worker#1
 //@   invariant every [C01,C02]: len(old(gcSent)) <= len(gcSent) && len(old(rcRecv)) <= len(rcRecv) && (ctxDoneSeen == old(ctxDoneSeen) && !errSent ==> drop(gcSent, len(old(gcSent))) == drop(rcRecv, len(old(rcRecv))))
@@ -168,10 +178,10 @@ func specLinesText(lines []string, i int) string {
 //@   carries errc: errChan
 //@   carries result0: grownChan(nil)
 //@   carries result1: errChan
-//@   modifies errSent, ctxDoneSeen, gcRecv, rcRecv, gcSent
+//@   modifies errSent, ctxDoneSeen, gcRecv, rcRecv, rcSentOK, lnConsumed, gcSent
 //@ closure gtree.nopGrowerPipeline.grow#1
 //@   requires nn: ctx != nil
-//@   modifies errSent, ctxDoneSeen, gcRecv, rcRecv, gcSent
+//@   modifies errSent, ctxDoneSeen, gcRecv, rcRecv, rcSentOK, lnConsumed, gcSent
 //@   ensures every [C04]: ctxDoneSeen == old(ctxDoneSeen) ==> drop(gcSent, len(old(gcSent))) == drop(rcRecv, len(old(rcRecv)))
 //@ loop gtree.nopGrowerPipeline.grow#1#1
 //@   invariant every [C04]: len(old(gcSent)) <= len(gcSent) && len(old(rcRecv)) <= len(rcRecv) && (ctxDoneSeen == old(ctxDoneSeen) ==> drop(gcSent, len(old(gcSent))) == drop(rcRecv, len(old(rcRecv))))
@@ -185,10 +195,10 @@ func specLinesText(lines []string, i int) string {
 //@   carries roots: grownChan($g)
 //@   carries errc: errChan
 //@   carries result0: errChan
-//@   modifies out, wfail, defaultSpreaderSimple.w, errSent, ctxDoneSeen, gcRecv, rcRecv, gcSent
+//@   modifies out, wfail, defaultSpreaderSimple.w, errSent, ctxDoneSeen, gcRecv, rcRecv, rcSentOK, lnConsumed, gcSent
 //@ closure gtree.defaultSpreaderPipeline.spread#1
 //@   requires nn: ds != nil && ds.defaultSpreaderSimple != nil && ctx != nil
-//@   modifies out, wfail, defaultSpreaderSimple.w, errSent, ctxDoneSeen, gcRecv, rcRecv, gcSent
+//@   modifies out, wfail, defaultSpreaderSimple.w, errSent, ctxDoneSeen, gcRecv, rcRecv, rcSentOK, lnConsumed, gcSent
 // What a text-spreader worker has written is, as long as no write was refused, the text of exactly the roots it received,
 // in that order (C01, per goroutine: what other workers write to the same writer in between is outside this model; the
 // mutex that keeps whole roots together is not modelled).
@@ -221,7 +231,7 @@ func lemmaRawRangePrefix(roots []*Node, r *Node, k int, i int) {
 //@   use lemma lemmaRawRangePrefix
 //@   ensures reported [C14]: wfail && !old(wfail) ==> errSent
 //@   ensures text [C01]: wfail == old(wfail) && !errSent ==> out[ds.defaultSpreaderSimple.w] == old(out[ds.defaultSpreaderSimple.w]) ++ specRawRange(gcRecv, len(old(gcRecv)), len(gcRecv))
-//@   modifies out, wfail, errSent, ctxDoneSeen, gcRecv, rcRecv, gcSent
+//@   modifies out, wfail, errSent, ctxDoneSeen, gcRecv, rcRecv, rcSentOK, lnConsumed, gcSent
 //@ loop gtree.defaultSpreaderPipeline.worker#1
 //@   invariant reported [C14]: wfail && !old(wfail) ==> errSent
 //@   invariant text [C01]: len(old(gcRecv)) <= len(gcRecv) && (wfail == old(wfail) && !errSent ==> out[ds.defaultSpreaderSimple.w] == old(out[ds.defaultSpreaderSimple.w]) ++ specRawRange(gcRecv, len(old(gcRecv)), len(gcRecv)))
@@ -235,7 +245,7 @@ func lemmaRawRangePrefix(roots []*Node, r *Node, k int, i int) {
 //@   requires validating [C09,C07]: g != nil ==> g.enabledValidation
 //@   carries errc: errChan
 //@   carries result0: errChan
-//@   modifies out, wfail, counter.n, spText, dryRoots, errSent, ctxDoneSeen, gcRecv, rcRecv, gcSent
+//@   modifies out, wfail, counter.n, spText, dryRoots, errSent, ctxDoneSeen, gcRecv, rcRecv, rcSentOK, lnConsumed, gcSent
 //@   after make: spText := ""
 // (functional clause, per goroutine: what this goroutine hands to the writer is, root by root, the dry-run report
 // specDryRoot of the roots it received - counters reset per root; spText accumulates what is owed, as on the simple route)
@@ -244,7 +254,7 @@ func lemmaRawRangePrefix(roots []*Node, r *Node, k int, i int) {
 //@ closure gtree.colorizeSpreaderPipeline.spread#1
 //@   requires nn: cs != nil && cs.colorizeSpreaderSimple != nil && colorizeOK(cs.colorizeSpreaderSimple) && ctx != nil
 //@   requires start: spText == ""
-//@   modifies out, wfail, counter.n, spText, dryRoots, errSent, ctxDoneSeen, gcRecv, rcRecv, gcSent
+//@   modifies out, wfail, counter.n, spText, dryRoots, errSent, ctxDoneSeen, gcRecv, rcRecv, rcSentOK, lnConsumed, gcSent
 //@   after spreadBranch: spText := spText ++ specDryRoot(cs.colorizeSpreaderSimple.fileColor, cs.colorizeSpreaderSimple.dirColor, cs.colorizeSpreaderSimple.fileConsiderer.extensions, arg0)
 //@   after spreadBranch: dryRoots := dryRoots ++ seqof(arg0)
 //@ loop gtree.colorizeSpreaderPipeline.spread#1#1
@@ -264,13 +274,13 @@ func lemmaRawRangePrefix(roots []*Node, r *Node, k int, i int) {
 //@   carries roots: grownChan($g)
 //@   carries errc: errChan
 //@   carries result0: errChan
-//@   modifies out, wfail, encTrace, encoders, errSent, ctxDoneSeen, gcRecv, rcRecv, gcSent, stageSpread, stageWriter
+//@   modifies out, wfail, encTrace, encoders, errSent, ctxDoneSeen, gcRecv, rcRecv, rcSentOK, lnConsumed, gcSent, stageSpread, stageWriter
 //@   ghostset stageSpread := f
 //@   ghostset stageWriter := w
 //@ applies formattedSpreadPipelineSpec to gtree.formattedSpreaderPipeline.spread[jsonNode], gtree.formattedSpreaderPipeline.spread[yamlNode], gtree.formattedSpreaderPipeline.spread[tomlNode]
 //@ contract formattedSpreadPipelineBody
 //@   requires nn: f != nil && f.encode != nil && f.formattedRoot != nil && ctx != nil
-//@   modifies out, wfail, encTrace, encoders, errSent, ctxDoneSeen, gcRecv, rcRecv, gcSent
+//@   modifies out, wfail, encTrace, encoders, errSent, ctxDoneSeen, gcRecv, rcRecv, rcSentOK, lnConsumed, gcSent
 //@   ensures once [C04]: encoders == old(encoders) + 1
 //@   ensures reported [C14]: wfail && !old(wfail) ==> errSent
 //@   ensures every [C04]: !errSent && wfail == old(wfail) ==> len(encTrace) - len(old(encTrace)) == len(gcRecv) - len(old(gcRecv))
@@ -301,7 +311,7 @@ func lemmaRawRangePrefix(roots []*Node, r *Node, k int, i int) {
 //@   requires live [C02]: !ctxCancelled[ctx]
 //@   carries roots: grownChan($g)
 //@   carries result0: errChan
-//@   modifies out, wfail, encTrace, encoders, errSent, ctxDoneSeen, gcRecv, rcRecv, gcSent, stageSpread, stageWriter
+//@   modifies out, wfail, encTrace, encoders, errSent, ctxDoneSeen, gcRecv, rcRecv, rcSentOK, lnConsumed, gcSent, stageSpread, stageWriter
 //@   ghostset stageSpread := f
 //@   ghostset stageWriter := w
 
@@ -313,10 +323,10 @@ func lemmaRawRangePrefix(roots []*Node, r *Node, k int, i int) {
 //@   requires validating [C07]: g != nil ==> g.enabledValidation
 //@   carries errc: errChan
 //@   carries result0: errChan
-//@   modifies fsOps, fsFailed, errSent, mkSeen, ctxDoneSeen, gcRecv, rcRecv, gcSent
+//@   modifies fsOps, fsFailed, errSent, mkSeen, ctxDoneSeen, gcRecv, rcRecv, rcSentOK, lnConsumed, gcSent
 //@ closure gtree.defaultMkdirerPipeline.mkdir#1
 //@   requires nn: dm != nil && dm.defaultMkdirerSimple != nil && dm.defaultMkdirerSimple.fileConsiderer != nil && ctx != nil
-//@   modifies fsOps, fsFailed, errSent, mkSeen, ctxDoneSeen, gcRecv, rcRecv, gcSent
+//@   modifies fsOps, fsFailed, errSent, mkSeen, ctxDoneSeen, gcRecv, rcRecv, rcSentOK, lnConsumed, gcSent
 // mkSeen: the roots for which this worker has started to create entries
 //@ ghost var mkSeen []*Node
 // a worker reports a failed file-system operation and a root that already exists on its stage's error channel (C06: every
@@ -325,7 +335,7 @@ func lemmaRawRangePrefix(roots []*Node, r *Node, k int, i int) {
 //@   requires nn: dm != nil && dm.defaultMkdirerSimple != nil && dm.defaultMkdirerSimple.fileConsiderer != nil && ctx != nil && wg != nil
 //@   carries roots: grownChan($g)
 //@   carries errc: errChan
-//@   modifies fsOps, fsFailed, errSent, mkSeen, ctxDoneSeen, gcRecv, rcRecv, gcSent
+//@   modifies fsOps, fsFailed, errSent, mkSeen, ctxDoneSeen, gcRecv, rcRecv, rcSentOK, lnConsumed, gcSent
 //@   after makeDirectoriesAndFiles: mkSeen := mkSeen ++ seqof(arg0)
 //@   ensures reported [C06]: fsFailed && !old(fsFailed) ==> errSent
 //@   ensures quiet [C06]: fsOps != old(fsOps) && !errSent ==> fsFailed == old(fsFailed)
@@ -344,10 +354,10 @@ func lemmaRawRangePrefix(roots []*Node, r *Node, k int, i int) {
 //@   requires validating [C07,C08]: g != nil ==> g.enabledValidation
 //@   carries errc: errChan
 //@   carries result0: errChan
-//@   modifies maps, errSent, vfSeen, ctxDoneSeen, gcRecv, rcRecv, gcSent
+//@   modifies maps, errSent, vfSeen, ctxDoneSeen, gcRecv, rcRecv, rcSentOK, lnConsumed, gcSent
 //@ closure gtree.defaultVerifierPipeline.verify#1
 //@   requires nn: dv != nil && dv.defaultVerifierSimple != nil && ctx != nil
-//@   modifies maps, errSent, vfSeen, ctxDoneSeen, gcRecv, rcRecv, gcSent
+//@   modifies maps, errSent, vfSeen, ctxDoneSeen, gcRecv, rcRecv, rcSentOK, lnConsumed, gcSent
 // a worker reports every root that does not match the directory on its stage's error channel (C08, per goroutine: vfSeen
 // collects the roots this worker has verified; as long as it has sent no error all of them match)
 //@ ghost var vfSeen []*Node
@@ -355,7 +365,7 @@ func lemmaRawRangePrefix(roots []*Node, r *Node, k int, i int) {
 //@   requires nn: dv != nil && dv.defaultVerifierSimple != nil && ctx != nil && wg != nil
 //@   carries roots: grownChan($g)
 //@   carries errc: errChan
-//@   modifies maps, errSent, ctxDoneSeen, gcRecv, rcRecv, gcSent, vfSeen
+//@   modifies maps, errSent, ctxDoneSeen, gcRecv, rcRecv, rcSentOK, lnConsumed, gcSent, vfSeen
 //@   after verifyRoot: vfSeen := vfSeen ++ seqof(arg0)
 //@   ensures mismatch [C08]: !errSent ==> (forall k int :: {vfSeen[k]} len(old(vfSeen)) <= k && k < len(vfSeen) ==> rootMatches(dv.defaultVerifierSimple, vfSeen[k]))
 //@   ensures every [C08]: !errSent ==> drop(vfSeen, len(old(vfSeen))) == drop(gcRecv, len(old(gcRecv)))
@@ -373,16 +383,16 @@ func lemmaRawRangePrefix(roots []*Node, r *Node, k int, i int) {
 //@   carries roots: grownChan($g)
 //@   carries errc: errChan
 //@   carries result0: errChan
-//@   modifies cbTrace, cbFailed, cbLastErr, cbAfterFail, errSent, ctxDoneSeen, gcRecv, rcRecv, gcSent
+//@   modifies cbTrace, cbFailed, cbLastErr, cbAfterFail, errSent, ctxDoneSeen, gcRecv, rcRecv, rcSentOK, lnConsumed, gcSent
 //@ closure gtree.defaultWalkerPipeline.walk#1
 //@   requires nn: dw != nil && dw.defaultWalkerSimple != nil && ctx != nil
-//@   modifies cbTrace, cbFailed, cbLastErr, cbAfterFail, errSent, ctxDoneSeen, gcRecv, rcRecv, gcSent
+//@   modifies cbTrace, cbFailed, cbLastErr, cbAfterFail, errSent, ctxDoneSeen, gcRecv, rcRecv, rcSentOK, lnConsumed, gcSent
 //@ func gtree.defaultWalkerPipeline.worker
 //@   requires nn: dw != nil && dw.defaultWalkerSimple != nil && ctx != nil && wg != nil
 //@   param callback follows walkCallback
 //@   carries roots: grownChan($g)
 //@   carries errc: errChan
-//@   modifies cbTrace, cbFailed, cbLastErr, cbAfterFail, errSent, ctxDoneSeen, gcRecv, rcRecv, gcSent
+//@   modifies cbTrace, cbFailed, cbLastErr, cbAfterFail, errSent, ctxDoneSeen, gcRecv, rcRecv, rcSentOK, lnConsumed, gcSent
 
 // ---- the tree (pipeline_tree.go)
 // pipelineTreeOK(t, cfg): t is the treePipeline that newTreePipeline builds for cfg.
@@ -400,11 +410,11 @@ func lemmaRawRangePrefix(roots []*Node, r *Node, k int, i int) {
 //@ func gtree.treePipeline.handlePipelineErr
 //@   requires nn: ctx != nil
 //@   carries echs: errChan
-//@   modifies errRecv, ctxDoneSeen, gcRecv, rcRecv, gcSent
+//@   modifies errRecv, ctxDoneSeen, gcRecv, rcRecv, rcSentOK, lnConsumed, gcSent
 //@   ensures seen [C14,C12]: result == nil ==> errRecv == old(errRecv)
 //@ loop gtree.treePipeline.handlePipelineErr#loop1
 //@   invariant grp: eg != nil && ectx != nil && (!eg.failed ==> errRecv == old(errRecv))
 //@ closure gtree.treePipeline.handlePipelineErr#1
 //@   implements egTask
-//@   modifies ctxDoneSeen, gcRecv, rcRecv, gcSent
+//@   modifies ctxDoneSeen, gcRecv, rcRecv, rcSentOK, lnConsumed, gcSent
 //@   requires idx: 0 <= i && i < len(echs) && ectx != nil
